@@ -13,6 +13,7 @@ import SkModel.Spec.Gate
 import SkModel.Store
 import SkModel.Seeker
 import SkModel.Since
+import SkModel.Collection
 import SkModel.Spec.Lines
 
 open Lean Sk
@@ -337,10 +338,42 @@ def runSinceCase (j : Json) : Json :=
     ("outs", Json.arr (outs.map coutJson).toArray), ("lineSecs", Json.arr secs.toArray),
     ("pass", toJson st.pass), ("fail", toJson st.fail)]
 
+/-! ### Collection (C14) -/
+
+def toCRes (j : Json) : CRes :=
+  { uid := natF j "uid", src := natF j "src", tag := optStr (fld j "tag"),
+    seqId := (getD? j "seq").map asNat, sec := (getD? j "sec").map asNat }
+
+def uids (rs : List CRes) : Json := Json.arr (rs.map fun r => toJson r.uid).toArray
+
+def sectionsJson (g : List (Option Nat × List CRes)) : Json :=
+  Json.arr (g.map fun p => Json.arr #[optNat p.1, uids p.2]).toArray
+
+def optPath (j : Json) : Option Nat := match j with | .null => none | v => some (asNat v)
+
+def runCollCase (j : Json) : Json :=
+  let batches := (arrF j "batches").toList.map fun b => (asArr b).toList.map toCRes
+  let c : Coll := batches.foldl Coll.add []
+  let qs := (arrF j "queries").map fun q =>
+    let a := asArr q
+    match asStr (a.getD 0 .null) with
+    | "len" => toJson c.len
+    | "all" => uids c.all
+    | "files" => Json.arr (c.files.map fun f => toJson f).toArray
+    | "items" => Json.arr (c.items.map fun p => Json.arr #[toJson p.1, uids p.2]).toArray
+    | "path" => uids (c.findByPath (asNat (a.getD 1 .null)))
+    | "tag" => uids (c.findByTag (asStr (a.getD 1 .null)) (optPath (a.getD 2 .null)))
+    | "seqobj" => sectionsJson (c.findSeqSections (asNat (a.getD 1 .null)) (optPath (a.getD 2 .null)))
+    | "seqtag" => sectionsJson (c.findSeqByTag ((asArr (a.getD 1 .null)).toList.map asNat)
+                                (optPath (a.getD 2 .null)))
+    | k => Json.str s!"unknown query {k}"
+  Json.mkObj [("answers", Json.arr qs)]
+
 def handle (j : Json) : Json :=
   match strF j "kind" with
   | "task" => Json.mkObj [("model", runTaskCase j), ("specSimple", specSimpleCase j),
                           ("specSeq", specSeqCase j), ("specGate", specGateCase j)]
+  | "coll" => Json.mkObj [("model", runCollCase j)]
   | "since" => Json.mkObj [("model", runSinceCase j)]
   | "seek" => Json.mkObj [("model", runSeekCase j)]
   | "store" => Json.mkObj [("model", runStoreCase j)]
